@@ -80,6 +80,7 @@ class Tally:
         self.evaluations = 0
         self.nontrivial: set[str] = set()  # digests of distinct non-trivial cases
         self.states = 0
+        self.state_set: set[str] = set()  # digests of distinct observed states (unioned across workers)
         self.transitions = 0
         self.executions = 0
         self.max_depth = 0
@@ -115,6 +116,10 @@ class Tally:
         if case_obj is not None and len(self.samples) < 3:
             self.samples.append(case_obj)
 
+    def state(self, obj):
+        """record one observed state (de-duplicated by digest, also across workers)"""
+        self.state_set.add(digest(obj))
+
     def outcome(self, obj):
         self.outcomes.add(digest(obj))
 
@@ -138,6 +143,7 @@ class Tally:
         self.evaluations += other.evaluations
         self.nontrivial |= other.nontrivial
         self.states += other.states
+        self.state_set |= other.state_set
         self.transitions += other.transitions
         self.executions += other.executions
         self.max_depth = max(self.max_depth, other.max_depth)
